@@ -1205,7 +1205,9 @@ class World(object):
         f = op['f']
         st.kind = 'derive'
         st.srcs = [a]
-        st.extra['shallow'] = True
+        # copy(), .T and reshape() are shallow by their documented meaning; flatten() ("a copy of the
+        # Fxp") and fxp_like() ("new Fxp object like x") promise new objects and are judged as such
+        st.extra['shallow'] = f in ('copy', 'T', 'reshape')
         if f in ('T', 'flatten', 'reshape') and np.asarray(s.obj.val).ndim == 0:
             raise Skip('scalar')
         yield
@@ -1218,10 +1220,10 @@ class World(object):
             self.finish_new(st, x, token=s.token, pos=s.pos.T, origin='shallow')
         elif f == 'flatten':
             x = o.flatten()
-            self.finish_new(st, x, origin='shallow')
+            self.finish_new(st, x, origin='flatten')
         elif f == 'fxp_like':
             x = fxf.fxp_like(o, None if op.get('val') is None else V.carrier(op['val']))
-            self.finish_new(st, x, origin='shallow')
+            self.finish_new(st, x, origin='fxp_like')
         elif f == 'reshape':
             x = o.reshape(-1)
             self.finish_new(st, x)
